@@ -128,6 +128,13 @@ class _Scope(dict):
     def __init__(self, parent):
         super().__init__()
         self.parent = parent
+        self.nonlocals = set()
+
+    def __setitem__(self, k, v):
+        if k in self.nonlocals:
+            self.parent[k] = v         # `nonlocal k`: the binding of the enclosing function is the one assigned
+        else:
+            dict.__setitem__(self, k, v)
 
     def __missing__(self, k):
         return self.parent[k]
@@ -171,6 +178,23 @@ class _Break(Exception):
 
 _ITER_TYPES = ('list_iterator', 'tuple_iterator', 'dict_keyiterator', 'dict_itemiterator', 'dict_valueiterator', 'set_iterator', 'list_reverseiterator',
                'enumerate', 'zip', 'generator')
+
+
+def _guarded_iter(it):
+    """iterate a stdlib iterator (tokenizer, regex matches ...): what it raises is raised by the evaluated code"""
+    it = iter(it)
+    while True:
+        try:
+            x = next(it)
+        except StopIteration:
+            return
+        except (Raised, Unsupported, AnalysisErrorType):
+            raise
+        except Exception as ex:  # noqa
+            if type(ex).__name__ in ('_Return', '_Break', '_Continue', 'Yielded'):
+                raise
+            raise Raised(type(ex).__name__)
+        yield x
 
 
 def _lazy_ok(fn):
@@ -294,6 +318,7 @@ class FDE:
         self._eager_node = None
         self._gen_once = False
         self._cm_once = False
+        self.values = {}         # dotted name -> plain value (constants of external modules)
         self.constructors = {}   # class name -> callable standing in for the construction of a node of that class
         self.free = {}           # free name -> plain value (e.g. a model of __builtins__)
         self.extcalls = {}       # dotted name -> python callable standing in for an external function (e.g. inspect.signature)
@@ -509,6 +534,8 @@ class FDE:
                         self.effects.append(('with_exit', unparse(it.context_expr)))
             elif isinstance(s, ast.Pass):
                 pass
+            elif isinstance(s, ast.Nonlocal) and isinstance(env, _Scope):
+                env.nonlocals.update(s.names)
             elif isinstance(s, (ast.ImportFrom, ast.Import)):
                 for a in s.names:
                     nm = a.asname or a.name.split('.')[0]
@@ -525,7 +552,7 @@ class FDE:
                 if not isinstance(it, (list, tuple)) and type(it).__name__ not in _ITER_TYPES:
                     raise (Raised('TypeError') if it is None or isinstance(it, (int, float)) else Unsupported('for over non-concrete iterable: %s' % unparse(s.iter)))
                 broke = False
-                for x in it:
+                for x in _guarded_iter(it):
                     self._assign(s.target, x, env, fi)
                     try:
                         self._run(s.body, env, fi)
@@ -886,6 +913,8 @@ class FDE:
                 return _builtin_value(e.id)                          # enumerate / sorted / len ... handed over as a function
             raise Unsupported('free name %s in %s' % (e.id, fi.qualname if fi else '?'))
         if isinstance(e, ast.Attribute):
+            if unparse(e) in self.values:
+                return self.values[unparse(e)]      # a constant of an external module (token.OP ...)
             if unparse(e) in self.extcalls and getattr(self.extcalls[unparse(e)], '_fde_ok', False):
                 return self.extcalls[unparse(e)]       # an external function used as a value (alias, table entry)
             if unparse(e) in self.externals:
@@ -1494,6 +1523,8 @@ class FDE:
                 return list(r) if n in ('range', 'enumerate', 'zip', 'reversed', 'map', 'filter') else r
             if n in env and callable(env[n]) and getattr(env[n], '_fde_ok', False):
                 return self._standin(env[n], args, kwargs)
+            if n not in env and n in self.free and callable(self.free[n]) and getattr(self.free[n], '_fde_ok', False):
+                return self._standin(self.free[n], args, kwargs)
             if n in env and isinstance(env[n], tuple) and env[n] and env[n][0] == 'closure':
                 return self._invoke(env[n][1], args, kwargs, base_env=env[n][2])
             if n in env and isinstance(env[n], tuple) and len(env[n]) == 2 and env[n][0] == 'class' and env[n][1] in self.repo.classes and env[n][1] not in self.stubs and self._plain_class(env[n][1]):
